@@ -260,7 +260,7 @@ def search(res, tier, seed, deep=False):
         if fname.startswith("running_window_over_years"):
             extra["running_window_mode_over_years_of_cm_future"] = True
             if fname.endswith("step_length"):
-                extra["running_window_over_years_of_cm_future_length"] = 5
+                pass        # the default length (17 for CDFt and QDM) admits every step value tried; B keeps the default step
             elif fname.endswith("_length"):
                 extra["running_window_over_years_of_cm_future_step_length"] = 1
         inp = dict(kind="attr-vs-ctor", debiaser=dn, variable=var, field=fname, value=repr(alt), extra={k: repr(v) for k, v in extra.items()})
